@@ -200,10 +200,12 @@ CHECKS["C18"] = dict(
     design_ref="DESIGN.md §6 C18")
 
 CHECKS["C16"] = dict(
-    technique="Lean 4 proof: interleaving semantics over shared-access steps of Transport.send / _connection_lost / disconnect / connection_made with an inductive invariant for every schedule (kernel exploration as cross-check); queue FIFO by induction over schedules; real methods on real threads under a deterministic cooperative scheduler, all interleavings replayed",
+    technique="Lean 4 proof: interleaving semantics over shared-access steps of Transport.send / _connection_lost / disconnect / connection_made with an inductive invariant for every schedule (kernel exploration as cross-check); queue FIFO and drain (liveness) by induction over schedules; real methods on real threads under a deterministic cooperative scheduler, all interleavings replayed",
     text="send_safe_general: one send against any number of loss / disconnect / reconnect threads under every schedule never "
          "raises, calls write at most once, and returns without a write only if the connection it saw is gone; "
-         "queue_fifo / queue_exactly_once for any producers and schedule; pinned_send_raises documents the repaired race.",
+         "queue_fifo / queue_exactly_once for any producers and schedule; queue_drains: once the producers stop, three pump "
+         "steps per queued job empty the queue from any state the pump can be in (every job is sent); pinned_send_raises "
+         "documents the repaired race.",
     note="Trusted: Lean kernel; Model/Transport.lean; atomic steps = the instrumented shared accesses (reads/writes of "
          "Transport.protocol, protocol.transport, write/close, deque append/popleft) of the unmodified methods — real "
          "pre-emptive scheduling below that granularity is not modelled; three-thread scenarios with more than 2500 "
